@@ -165,6 +165,12 @@ func staticCallee(info *types.Info, call *ast.CallExpr) *types.Func {
 func (p *Prog) contractGhostAssigns(c *FuncContract) map[string]bool {
 	m := map[string]bool{}
 	for _, a := range c.Assigns {
+		if a == "**" {
+			// "**": any heap location and any ghost (top-level functions whose frame is of no interest)
+			for g := range p.DB.Ghosts {
+				m[g] = true
+			}
+		}
 		if _, ok := p.DB.Ghosts[a]; ok {
 			m[a] = true
 		}
